@@ -155,6 +155,10 @@ def audit(prop: str) -> dict:
         if not line.startswith("{"):
           continue
         o = json.loads(line)
+        # property theorems are named <prop>_...; structure projections / private helpers of the
+        # Props file are not obligations themselves (their axioms surface in the theorems using them)
+        if not o["name"].split(".")[-1].startswith(prop + "_"):
+          continue
         o["ok"] = set(o["axioms"]) <= ALLOWED_AXIOMS
         res["obligations"].append(o)
   res["ok"] = bool(res["build_ok"] and res["obligations"] and all(o["ok"] for o in res["obligations"])
